@@ -1866,6 +1866,7 @@ func (ls *LState) PCall(nargs, nret int, errfunc *LFunction) (err error) {
 					ls.Panic = oldpanic
 					rcv := recover()
 					if rcv != nil {
+						ls.nCcalls = nCcalls
 						if _, ok := rcv.(*ApiError); !ok {
 							err = newApiErrorS(ApiErrorPanic, fmt.Sprint(rcv))
 							if ls.Options.IncludeGoStackTrace {
